@@ -109,7 +109,8 @@ def prim(s):
 
 FIELD_NAMES = ["position", "normal", "uv", "color", "weights", "indices", "m", "a", "b", "c", "d", "scale", "bias",
                "data", "count", "flags", "inner", "items", "pad0", "tint", "v", "w", "mvp", "bones", "k", "t0", "t1",
-               "_pad0", "_padding", "_pad", "padding", "_unused", "reserved", "x_", "self_", "len", "size", "align"]
+               "_pad0", "_padding", "_pad", "padding", "_unused", "reserved", "x_", "self_", "len", "size", "align",
+               "baseColor", "uvScale", "X", "gr\u00f6\u00dfe", "tex2D", "Normal"]
 
 
 class Gen:
@@ -196,7 +197,8 @@ def program(rng, **kw):
     # host-side structs
     nhost = rng.randint(0, 5)
     for i in range(nhost):
-        s = g.new_struct("H%d%s" % (i, rng.choice(["", "Data", "_s", "Block"])), depth=rng.randint(0, 3))
+        style = rng.choice(["H%d", "H%dData", "H%d_s", "H%dBlock", "H%d", "_H%d", "h%d_data", "Gr\u00f6\u00dfe%d", "UBO%d", "Light2D%d", "_globals%d"])
+        s = g.new_struct(style % i, depth=rng.randint(0, 3))
     host_structs = list(g.structs)
     rts_struct = None
     if g.allow_rts and rng.random() < 0.35:
